@@ -487,9 +487,15 @@ def run(ctx):
         ctx.broken("scheme-driver", "the Scheme driver prelude does not run: %s" % (probe[0] if probe else None))
         return
     corpus_first(ctx, d, exe, emb, C)
-    inner(ctx, d, exe, emb, C, 2500 if not T else 120000)
-    outer_pairs(ctx, d, exe, C, 1500 if not T else 60000)
-    histories(ctx, d, exe, C, (260, 12) if not T else (20000, 600))
+    import time
+    t0 = time.time()
+    inner(ctx, d, exe, emb, C, 1500 if not T else 100000)
+    t1 = time.time()
+    outer_pairs(ctx, d, exe, C, 1000 if not T else 50000)
+    outer_cycles(ctx, d, 60 if not T else 2000)
+    t2 = time.time()
+    histories(ctx, d, exe, C, (170, 10) if not T else (12000, 500))
+    ctx.note("wall: inner %.0fs, outer pairs+cycles %.0fs, histories %.0fs" % (t1 - t0, t2 - t1, time.time() - t2))
     for e in shape_errs:
         ctx.broken("source-shape", e)
     ctx.assume("objects are finite trees: sharing and cycles are outside the model (the cycle-safe path of lib/chibi/equiv.scm is exercised only through (scheme base) equal? on acyclic data)")
@@ -700,6 +706,52 @@ def outer_pairs(ctx, d, exe, C, n):
     f2 = (fo[2] or "").split(" ")
     if not (len(f2) >= 6 and f2[0][:2] == "11" and f2[1] == f2[2] and f2[3] == "1" and f2[4] == f2[5]):
         ctx.violation("equal?:str:false-negative", input=fixed[2], expected="equal?, string=?, same hash and string-hash", observed=fo[2], replay=replay_scm(fixed[2]))
+
+
+# ------------------------------------------------------------------------------------------------ cyclic data (outer only)
+def outer_cycles(ctx, d, n):
+    """equal? must terminate on cyclic data and decide equality of the infinite unfoldings (R7RS 6.1); hash must terminate
+    and agree on equal? data.  Circular lists given by (prefix, cycle) of small integers; two mutually recursive vectors."""
+    rng = ctx.rng
+
+    def unfold(p, c, k):
+        return [(p + c * k)[i] for i in range(k)]
+
+    def build(p, c):
+        items = p + c
+        return "(let ((l (list %s))) (set-cdr! (list-tail l %d) (list-tail l %d)) l)" % (" ".join(map(str, items)), len(items) - 1, len(p))
+    exprs, meta = [], []
+    for _ in range(n):
+        p1 = [rng.randrange(3) for _ in range(rng.randrange(0, 4))]
+        c1 = [rng.randrange(3) for _ in range(rng.randrange(1, 4))]
+        r = rng.random()
+        if r < 0.4:      # the same infinite list with another prefix / period
+            k = rng.randrange(0, 3)
+            p2 = p1 + unfold([], c1, k)
+            c2 = (c1[k % len(c1):] + c1[:k % len(c1)]) * rng.choice([1, 2, 3])
+        elif r < 0.7:
+            p2, c2 = list(p1), list(c1)
+            i = rng.randrange(len(c2))
+            c2[i] = (c2[i] + 1) % 3
+        else:
+            p2 = [rng.randrange(3) for _ in range(rng.randrange(0, 4))]
+            c2 = [rng.randrange(3) for _ in range(rng.randrange(1, 4))]
+        same = unfold(p1, c1, 60) == unfold(p2, c2, 60)
+        exprs.append("(let ((a %s) (b %s)) (string-append (c15-b (equal? a b)) (c15-b (equal? b a)) (c15-b (equal? a a)) (c15-b (= (hash a) (hash b)))))" % (build(p1, c1), build(p2, c2)))
+        meta.append(same)
+    exprs.append("(let ((v (vector 1 #f)) (w (vector 1 #f)) (u (vector 1 #f))) (vector-set! v 1 v) (vector-set! w 1 u) (vector-set! u 1 w) "
+                 "(string-append (c15-b (equal? v w)) (c15-b (equal? w v)) (c15-b (equal? v v)) (c15-b (= (hash v) (hash w)))))")
+    meta.append(True)
+    out = scm.run_cases(d, exprs, prelude_extra=PRELUDE, imports=IMPORTS, timeout=300)
+    for e, same, o in zip(exprs, meta, out):
+        ctx.count(1, key=e)
+        o = unquote(o)
+        if o is None or len(o) != 4 or o.startswith(("ERR", "CRA", "TIM")):
+            ctx.violation("equal?:cyclic:no-answer", input=e, expected="an answer", observed=o, replay=replay_scm(e))
+        elif (o[0] == "1") != same or (o[1] == "1") != same or o[2] != "1":
+            ctx.violation("equal?:cyclic", input=e, expected="equal? = %s (both orders), reflexive" % same, observed=o, replay=replay_scm(e))
+        elif same and o[3] != "1":
+            ctx.violation("hash-respects-equal:cyclic", input=e, expected="equal hashes", observed=o, replay=replay_scm(e))
 
 
 # ------------------------------------------------------------------------------------------------ K-outer B
